@@ -21,7 +21,7 @@ type Attr struct {
 	Size     uint32   `json:"size"`
 	BitField uint32   `json:"bits"`
 	Dims     []uint64 `json:"dims"`
-	Data     string   `json:"data"` // hex of raw Data
+	Data     string   `json:"data"`  // hex of raw Data
 	Value    string   `json:"value"` // canonical rendering of ReadValue()
 	ValueErr string   `json:"value_err,omitempty"`
 }
@@ -47,6 +47,8 @@ type Dataset struct {
 	StringsErr  string   `json:"strings_err,omitempty"`
 	Compound    []string `json:"compound,omitempty"`
 	CompoundErr string   `json:"compound_err,omitempty"`
+	Slice       string   `json:"slice,omitempty"` // Options.Slices: rendering of two partial reads
+	SliceErr    string   `json:"slice_err,omitempty"`
 
 	Attrs    []Attr `json:"attrs"`
 	AttrsErr string `json:"attrs_err,omitempty"`
@@ -76,6 +78,7 @@ type File struct {
 // Options limit how much is read.
 type Options struct {
 	SkipData bool // do not call Read/ReadStrings/ReadCompound
+	Slices   bool // also read two fixed partial selections per dataset (one column; every second element of the last dimension)
 }
 
 func safe(f *File, what string, fn func()) {
@@ -334,6 +337,34 @@ func Read(path string, opt Options) *File {
 					for i, x := range v {
 						d.Compound[i] = Render(map[string]interface{}(x))
 					}
+				})
+			}
+			if opt.Slices && len(d.Dims) > 0 && d.Dims[len(d.Dims)-1] >= 2 {
+				safe(f, p+" ReadSlice", func() {
+					r := len(d.Dims)
+					start, count := make([]uint64, r), append([]uint64{}, d.Dims...)
+					start[r-1], count[r-1] = 1, 1
+					for i := 0; i < r; i++ {
+						if count[i] == 0 {
+							return
+						}
+					}
+					v1, err := o.ReadSlice(start, count)
+					if err != nil {
+						d.SliceErr = errStr(err)
+						return
+					}
+					sel := &hdf5.HyperslabSelection{Start: make([]uint64, r), Count: append([]uint64{}, d.Dims...), Stride: make([]uint64, r), Block: make([]uint64, r)}
+					for i := 0; i < r; i++ {
+						sel.Stride[i], sel.Block[i] = 1, 1
+					}
+					sel.Stride[r-1], sel.Count[r-1] = 2, (d.Dims[r-1]+1)/2
+					v2, err := o.ReadHyperslab(sel)
+					if err != nil {
+						d.SliceErr = errStr(err)
+						return
+					}
+					d.Slice = Render(v1) + " | " + Render(v2)
 				})
 			}
 			d.Attrs, d.AttrsErr = attrsOf(f, p, o.Attributes)
